@@ -189,6 +189,27 @@ impl<T: InternalVertexInfo + super::sealed::__Sealed> VertexInfo for T {
                 .map(RequiredProperty::new)
         }));
 
+        // Tagged properties of this vertex may also be needed by folds that start in
+        // this component: either imported into the fold for use somewhere inside it,
+        // or used in a filter on the fold's count.
+        let properties = properties.chain(current_component.folds.values().flat_map(|fold| {
+            let imported = fold.imported_tags.iter().filter_map(|field_ref| match field_ref {
+                FieldRef::ContextField(ctx) if ctx.vertex_id == current_vertex.vid => {
+                    Some(ctx.field_name.clone())
+                }
+                _ => None,
+            });
+            let post_filtered = fold.post_filters.iter().filter_map(|f| match f.right() {
+                Some(Argument::Tag(FieldRef::ContextField(ctx)))
+                    if ctx.vertex_id == current_vertex.vid =>
+                {
+                    Some(ctx.field_name.clone())
+                }
+                _ => None,
+            });
+            imported.chain(post_filtered).map(RequiredProperty::new)
+        }));
+
         let mut seen_property = HashSet::new();
         Box::new(properties.filter(move |r| seen_property.insert(r.name.clone())))
     }
